@@ -15,7 +15,7 @@ from ..compile import World
 from ..ctx import CTX, RunTooBig
 from ..history import History, canon, canon_outcome, digest, same
 from ..rng import Streams, chance, pick, weighted
-from ..sim import apply_op, build_sim, locations, preload, readable, stack_state, watch_spirals
+from ..sim import apply_op, form_of, build_sim, locations, preload, readable, stack_state, watch_spirals
 from ..world import gen_inputs, gen_request, gen_situation, gen_world, wide_knob
 from . import Result
 from .c18 import ETERNITY, make_env
@@ -47,6 +47,16 @@ def generate(seed: int, tier: str) -> dict:
     ir = st["inputs"]
     situation = gen_situation(ir, world, max_persons=5)
     inputs = gen_inputs(ir, world, p=0.4)
+    if profile != "acyclic":
+        # year-defined rules inside quasi-circular chains: values held for rolling years
+        # overlap, in part, the calendar years a spiral taints
+        from ..world import _ROLLING_YEARS, gen_value
+
+        for v in world["variables"]:
+            if v["unit"] == "year" and v["formulas"] and chance(ir, 0.4):
+                per = pick(ir, _ROLLING_YEARS)
+                if not any(i[0] == v["name"] and i[1] == per for i in inputs):
+                    inputs.append([v["name"], per, [gen_value(ir, v, world) for _ in range(ir.randint(1, 3))]])
     kr = st["knobs"]
     knobs = {"max_spiral_loops": pick(kr, [1, 1, 2, 3])}
     env = {}
@@ -136,7 +146,8 @@ def run_order(scn, world, order, res: Result, H: History, fresh_cache: dict):
     with env:
         sim = build_sim(world, scn["situation"], scn["knobs"], scn["inputs"])
         spirals = watch_spirals(sim)
-        inputs0 = set(readable(sim, env))
+        inputs0_values = readable(sim, env)
+        inputs0 = set(inputs0_values)
         verified: dict = {}  # x -> {"step", "reads", "defaults"}
         eternal_period: dict = {}  # eternal variable -> period its stored value was computed for
         first_seen: dict = {}
@@ -145,7 +156,7 @@ def run_order(scn, world, order, res: Result, H: History, fresh_cache: dict):
         for step, o in enumerate(order):
             do = pool[o["req"] % len(pool)]
             CTX.sim = sim
-            out = apply_op(sim, world, do)
+            out = apply_op(sim, world, do, form=form_of(do, step))
             CTX.sim = None
             formulas_ran += len(CTX.frames)
             for f in CTX.frames:
@@ -166,6 +177,16 @@ def run_order(scn, world, order, res: Result, H: History, fresh_cache: dict):
             res.count("clause:C02.purged")
             if st["stack"] or st["invalidated"]:
                 res.violate("C02.purged", step, op=do, state=st)
+
+            # C02.inputs-kept ------------------------------------------------
+            # "with fixed inputs": no request - and no purge after a spiral - may remove
+            # or change a value the simulation was given (in particular one held for a
+            # period that overlaps a purged one in part)
+            res.count("clause:C02.inputs-kept")
+            for key in inputs0:
+                if key not in R or not same(R[key], inputs0_values[key]):
+                    res.violate("C02.inputs-kept", step, op=do, entry=list(key), got=canon(R[key]) if key in R else None)
+                    break
 
             # C02.fresh ------------------------------------------------------
             if profile == "acyclic":
